@@ -220,7 +220,10 @@ def shard(ctx: Ctx) -> None:
     _device.AUTO_ROTATE = True   # chunking of the device's stream rotates: as written / replies coalesced / cut into 1..8-byte pieces
     rng = ctx.rng
     idx = 0
-    Ks = (0.5, 1.0, 7.3, 20.0, 90.0)
+    from fractions import Fraction
+
+    # (the interval as a float, as an int - `keepalive=10` is what the library's own log reader passes - and as another real number type)
+    Ks: tuple[Any, ...] = (0.5, 1.0, 7.3, 20.0, 90.0, 2, 10, Fraction(3, 2))
     # seeded masks over 24 slots
     n_masks = 40000 if ctx.thorough else 8000
     mrng = rng.__class__(f"C10-masks/{ctx.seed}")
